@@ -849,7 +849,7 @@ def mp_eval(t, env, cache=None):
         r = mpmath.mpf(t[1].numerator) / t[1].denominator
     elif k == 'named':
         if t[1] == 'EPSILON':
-            r = mpmath.mpf(2) ** -52
+            r = env.get('#EPSILON', mpmath.mpf(2) ** -52)
         elif t[1] in NAMED_ENCLOSURE:
             r = NAMED_ENCLOSURE[t[1]]()
         else:
